@@ -968,7 +968,8 @@ theorem C04_wrapper_constructors_text :
 
 /-- The functions of `kvstore.go` / `utils.go` whose models are written by hand (`copyStep`, `copybStep` and their traces and fault
 paths; `getIterDirection`; `upperBound`; `sortSlice`; `copyBytes`) are pinned as normalised source text: any edit of `Copy`,
-`CopyBatched`, `GetIterDirection`, `KeyPrefixUpperBound`, `SortSlice`, `CopyBytes` breaks this obligation, also one the call lists
+`CopyBatched`, `GetIterDirection`, `KeyPrefixUpperBound`, `SortSlice`, `CopyBytes`, `byteutils.ConcatBytes`, `ConcatBytesToString`,
+`ReadAvailableBytesToBuffer` breaks this obligation, also one the call lists
 cannot see (a changed condition, a swapped comparison, another increment). -/
 theorem C04_helper_functions_text :
     text_kvstore_Copy =
@@ -982,8 +983,14 @@ theorem C04_helper_functions_text :
     text_utils_SortSlice =
       "{ switch kvstore.GetIterDirection(iterDirection...) { case kvstore.IterDirectionForward: sort.Sort(sort.StringSlice(slice)) case kvstore.IterDirectionBackward: sort.Sort(sort.Reverse(sort.StringSlice(slice))) } return slice }" ∧
     text_utils_CopyBytes =
-      "{ targetSize := len(source) if len(size) > 0 { targetSize = size[0] } cpy := make([]byte, targetSize) copy(cpy, source) return cpy }" :=
-  ⟨rfl, rfl, rfl, rfl, rfl, rfl⟩
+      "{ targetSize := len(source) if len(size) > 0 { targetSize = size[0] } cpy := make([]byte, targetSize) copy(cpy, source) return cpy }" ∧
+    text_byteutils_ConcatBytes =
+      "{ var b bytes.Buffer for _, byteSlice := range byteSlices { b.Write(byteSlice) } return b.Bytes() }" ∧
+    text_byteutils_ConcatBytesToString =
+      "{ var b strings.Builder for _, byteSlice := range byteSlices { b.Write(byteSlice) } return b.String() }" ∧
+    text_byteutils_ReadAvailableBytesToBuffer =
+      "{ availableBytes := sourceLength - sourceOffset requiredBytes := len(target) - targetOffset var bytesToRead int if availableBytes < requiredBytes { bytesToRead = availableBytes } else { bytesToRead = requiredBytes } copy(target[targetOffset:], source[sourceOffset:sourceOffset+bytesToRead]) return bytesToRead }" :=
+  ⟨rfl, rfl, rfl, rfl, rfl, rfl, rfl, rfl, rfl⟩
 
 /-- **The traces the driver prints are `sem`**: what `traceOp` (the function `drv_c04` answers the recorded events with)
 says for a request on a view / batch with stack `ws` is the trace model `sem` of that stack — the very function the two
